@@ -65,6 +65,11 @@ def check(ctx, src):
         ctx.decide("QQ-LEVEL", f"{R}|render_quoted_form|children level", None if a is None or lvp is None else (isinstance(a, ast.Name) and a.id == lvp),
                    f"children are rendered at `{norm(a) if a is not None else None}`; every child of a sequence (the format spec of an f-string field included) must be rendered at the current level", R, rc_.lineno,
                    witness="an unquote inside a nested replacement field of a format spec is left as a literal (unquote …) form", detail="level")
+    # every child's splice flag is taken: the pair returned by the recursive call is unpacked, never indexed with [0]
+    dropped = [rc_ for rc_ in rec if isinstance(getattr(rc_, "_parent", None), ast.Subscript) and isinstance(rc_._parent.slice, ast.Constant) and rc_._parent.slice.value == 0]
+    ctx.decide("QQ-SPLICE", f"{R}|render_quoted_form|splice flag of every child", None if not rec else not dropped,
+               "a child is rendered with `render_quoted_form(...)[0]`: its splice flag is dropped, so a `~@` directly in that position is inserted as one element instead of being spliced", R,
+               dropped[0].lineno if dropped else f.lineno, witness='`f"{~@xs}" nests the list instead of splicing it', detail="(contents, splice) unpacked for every child", local=True)
     ctx.need(rec, "the recursive rendering of the children was not recognised")
     lp = rec[0]
     while lp is not None and not isinstance(lp, ast.For):
